@@ -151,7 +151,7 @@ impl Prop for C09 {
         "C09"
     }
     fn rule(&self) -> String {
-        "cases = a list of 0-1023 column descriptors (table/column names of 0 to 70000 bytes biased to 249-256 and 65534-65537, non-ASCII UTF-8, plus enumerated ~16 MiB names that make one definition as large as, or larger than, a wire packet; every ColumnType variant; flag words from all 16 bits) used as a text resultset header, a binary resultset header, or a PREPARE reply (arbitrary u32 statement id, independent parameter and column lists); one case in eight is one reply of 2-4 resultsets whose column lists are prefixes of one list and reach the library as slices of one allocation; one case in six is a sequence of 2-6 PREPAREs whose replies take their ids from a pool of three, so that an id that is still open (possibly with pending long data or after an execution) or was just closed is handed out again with other parameter / column lists, and every reply is checked. Oracle: decoded count and per column table, name, type, flags in order equal the declared ones; PREPARE_OK id / num_params / num_columns equal; mysql_common's Column parser agrees. Non-trivial = > 250 columns, or a name > 250 bytes, or flags with >= 3 bits.".into()
+        "cases = a list of 0-1023 column descriptors (table/column names of 0 to 70000 bytes biased to 249-256 and 65534-65537, non-ASCII UTF-8, plus enumerated ~16 MiB names that make one definition as large as, or larger than, a wire packet; every ColumnType variant; flag words from all 16 bits) used as a text resultset header, a binary resultset header, or a PREPARE reply (arbitrary u32 statement id, independent parameter and column lists); one case in eight is one reply of 2-4 resultsets whose column lists are prefixes of one list (the empty prefix included: a column-less resultset between others) and reach the library as slices of one allocation; one case in six is a sequence of 2-6 PREPAREs whose replies take their ids from a pool of three, so that an id that is still open (possibly with pending long data or after an execution) or was just closed is handed out again with other parameter / column lists, and every reply is checked. Oracle: decoded count and per column table, name, type, flags in order equal the declared ones; PREPARE_OK id / num_params / num_columns equal; mysql_common's Column parser agrees. Non-trivial = > 250 columns, or a name > 250 bytes, or flags with >= 3 bits.".into()
     }
     fn cases(&self, tier: Tier) -> u64 {
         tier.pick(60000, 600000)
@@ -183,7 +183,8 @@ impl Prop for C09 {
             let n = g.usize_in(2, 8);
             let cols: Vec<ColGen> = (0..n).map(|_| gen_colgen(g, true)).collect();
             let k = g.usize_in(2, 4);
-            let lens = (0..k).map(|_| g.usize_in(1, n)).collect();
+            // (the empty prefix too: a resultset without columns between ones with columns)
+            let lens = (0..k).map(|_| if g.chance(1, 5) { 0 } else { g.usize_in(1, n) }).collect();
             return Case { cols, site: Site::PrefixChain { lens, bin: g.coin() } };
         }
         let site = match g.below(3) {
@@ -237,13 +238,16 @@ impl Prop for C09 {
         }
         if let Site::PrefixChain { lens, bin } = &case.site {
             ex.class("site:chain-of-resultsets-over-prefixes-of-one-column-list");
+            if lens.iter().any(|&k| k == 0) {
+                ex.class("chain-with-a-column-less-resultset-between-others");
+            }
             ex.nontrivial = true;
             let all: Vec<ColSpec> = case.cols.iter().map(spec).collect();
             let n = lens.len();
             let steps: Vec<Step> = lens
                 .iter()
                 .enumerate()
-                .map(|(i, &k)| Step::Set { cols: all[..k.min(all.len()).max(1)].to_vec(), rows: vec![], end: if i + 1 == n { SetEnd::Finish } else { SetEnd::FinishOne } })
+                .map(|(i, &k)| Step::Set { cols: all[..k.min(all.len())].to_vec(), rows: vec![], end: if i + 1 == n { SetEnd::Finish } else { SetEnd::FinishOne } })
                 .collect();
             let prog = Program { steps };
             let (conv, idx) = if *bin {
